@@ -21,6 +21,7 @@ type tNetCfg struct {
 	recurrent              bool // also allow backward links and self-loops among neurons
 	atype                  neatmath.NodeActivationType
 	symTypes               bool // activation type of each neuron symbolic (used with the uninterpreted act redirect)
+	biasFirst              bool // bias nodes are listed before the input nodes (sensor order is by id, not by role)
 	concreteW              bool // distinct concrete weights (keeps recurrent multi-step terms linear in the inputs)
 }
 
@@ -34,15 +35,26 @@ func symW(tag string) float64 {
 func tBuild(c tNetCfg) *tNet {
 	t := &tNet{}
 	id := 1
-	for i := 0; i < c.nIn; i++ {
-		n := NewSensorNode(id, false)
-		id++
-		t.ins = append(t.ins, n)
+	mkIn := func() {
+		for i := 0; i < c.nIn; i++ {
+			n := NewSensorNode(id, false)
+			id++
+			t.ins = append(t.ins, n)
+		}
 	}
-	for i := 0; i < c.nBias; i++ {
-		n := NewSensorNode(id, true)
-		id++
-		t.bias = append(t.bias, n)
+	mkBias := func() {
+		for i := 0; i < c.nBias; i++ {
+			n := NewSensorNode(id, true)
+			id++
+			t.bias = append(t.bias, n)
+		}
+	}
+	if c.biasFirst {
+		mkBias()
+		mkIn()
+	} else {
+		mkIn()
+		mkBias()
 	}
 	mk := func(nt NodeNeuronType) *NNode {
 		n := NewNNode(id, nt)
@@ -61,8 +73,13 @@ func tBuild(c tNetCfg) *tNet {
 	for i := 0; i < c.nHid; i++ {
 		t.hid = append(t.hid, mk(HiddenNeuron))
 	}
-	t.all = append(t.all, t.ins...)
-	t.all = append(t.all, t.bias...)
+	if c.biasFirst {
+		t.all = append(t.all, t.bias...)
+		t.all = append(t.all, t.ins...)
+	} else {
+		t.all = append(t.all, t.ins...)
+		t.all = append(t.all, t.bias...)
+	}
 	t.all = append(t.all, t.outs...)
 	t.all = append(t.all, t.hid...)
 	t.nSensors = c.nIn + c.nBias
@@ -111,7 +128,7 @@ func tBuild(c tNetCfg) *tNet {
 			}
 		}
 	}
-	inputs := append(append([]*NNode{}, t.ins...), t.bias...)
+	inputs := append([]*NNode{}, t.all[:t.nSensors]...)
 	t.net = NewNetwork(inputs, t.outs, t.all, 1)
 	return t
 }
@@ -170,9 +187,15 @@ func (t *tNet) refValue(j int, x []float64, memo []float64, done []bool) float64
 	}
 	var v float64
 	switch {
-	case j < len(t.ins):
-		v = x[j]
-	case j < t.nSensors:
+	case t.all[j].NeuronType == InputNeuron:
+		k := 0
+		for i := 0; i < j; i++ {
+			if t.all[i].NeuronType == InputNeuron {
+				k++
+			}
+		}
+		v = x[k]
+	case t.all[j].NeuronType == BiasNeuron:
 		v = 1.0
 	default:
 		sum := 0.0
